@@ -28,7 +28,7 @@ from vlib.core import enc_csr, enc_list, enc_rat, ToolFailure, VERIF
 RULE = ('all undirected simple graphs n<=5 (thorough: n<=6) x {count_triangles seq/parallel, clustering coefficient, '
         'core decomposition, count_cliques for every k in 2..n+1 and the refused k<2}; structured and random graphs '
         '6<=n<=40 (onion/core-structured, preferential attachment, dense blocks, multipartite, relabelled copies, '
-        'unsorted indices, integer weights, bool/int dtypes); thread sweep OMP_NUM_THREADS in {1,2,3,5,8,16} in sub-processes. A case is non-trivial when the '
+        'unsorted indices, integer weights, bool/int dtypes); 300 (thorough 3000) dense graphs n=6..8 for the deeper levels of the clique recursion; thread sweep OMP_NUM_THREADS in {1,2,3,5,8,16} in sub-processes. A case is non-trivial when the '
         'graph has at least one edge (triangles/cliques: at least one path of length two); distinct = distinct '
         '(function, graph, arguments)')
 ASSUMPTIONS = ['scipy csr construction / + / .T / astype / tocoo / tocsr are the substrate (the DAG handed to the kernels '
@@ -610,6 +610,13 @@ def build_cases(ctx):
             cases += cases_for_graph(ctx, b, rng, name + ':' + v, True, rng.sample(_ks_for(rng, a, quick), 2),
                                      ('tri', 'cc', 'core', 'cliques'))
             ctx.count('variant:' + v)
+    # small dense graphs: several levels of the clique recursion with non-trivial truncated degrees
+    for _ in range(300 if quick else 3000):
+        n = rng.choice([6, 7, 8])
+        pr = rng.choice([0.5, 0.7, 0.85])
+        a = _mk(n, _und((i, j) for i in range(n) for j in range(i + 1, n) if rng.random() < pr))
+        cases += cases_for_graph(ctx, a, rng, 'dense%d' % n, True, [3, 4, 5], ('cliques', 'core'))
+        ctx.count('random:dense')
     # larger graphs (heap depth >= 4, several levels of the clique recursion)
     for name, a in random_graphs(ctx, rng, 10 if quick else 60, 24, 40):
         cases += cases_for_graph(ctx, a, rng, name, True, [2, 3, 4, rng.choice([5, 6])],
